@@ -5,6 +5,7 @@ from ..r_rules import rule_tables_applicable
 from ..r_rings import rule_heavy_atoms
 
 from ..r_domains import rule_domains
+from ..r_keys import rule_fresh_keys
 
 LEVEL = 'other'
 NORMALISERS = {'Standardize.canonicalize', 'Standardize.standardize', 'Standardize.standardize_charges', 'Resonance.fix_resonance',
@@ -21,3 +22,4 @@ def run(ck, repo):
     rule_tables_applicable(ck, repo, 'C14.D2-rule-tables')
     rule_domains(ck, repo, 'C14.D2-index-domains', only=['__standardize', '__fix_rings'])
     rule_heavy_atoms(ck, repo, 'C14.D3-heavy-atoms', P)
+    rule_fresh_keys(ck, repo, 'C14.D3-fresh-atom-numbers')
